@@ -176,6 +176,7 @@ def join_aux(source_name, source_key, source_delete,  # noqa: C901
 
     deduplication = target_key is None
     fields = fix_fields(fields)
+    fields_spec = copy.deepcopy(fields)
     source_key = KeyCalc(source_key)
     target_key = KeyCalc(target_key) if target_key is not None else target_key
     # We will store db keys as boolean flags:
@@ -368,9 +369,10 @@ def join_aux(source_name, source_key, source_delete,  # noqa: C901
         datapackage['resources'] = new_resources
 
     def func(package: PackageWrapper):
-        nonlocal db, db_keys_usage
+        nonlocal db, db_keys_usage, fields
         db_keys_usage = KVFile()
         db = KVFile()
+        fields = copy.deepcopy(fields_spec)
         process_datapackage(package.pkg.descriptor)
         yield package.pkg
         yield from new_resource_iterator(package)
